@@ -214,7 +214,8 @@ def _slot_violation(s, conds, name, k, toks_k, narrow=None):
         if incomment:
             continue
         for t in _numeric_terms(tk):
-            extra.append(z3.And(t != vk, t != sN(vk, 64), t != sN(vk, 32), t != vk % (1 << 32)))
+            allowed = [vk, sN(vk, 64)] + ([sN(vk, 32)] if narrow == 's32' else []) + ([vk % (1 << 32)] if narrow == 'u32' else [])
+            extra.append(z3.And([t != f for f in allowed]))
     # make the words pairwise different and recognisable
     for j in range(4):
         for i in range(j):
